@@ -75,6 +75,9 @@ LessN(EE, a, b) ==
     ELSE EE[a].name < EE[b].name
 
 \* u32 arithmetic
+\* (TLC integers are 32 bit: doubling is saturated just below 2^31 so that a history on which the model and the code
+\* disagree about compaction is rejected by the trace specification instead of stopping TLC with an overflow)
+Dbl(u) == IF u > 1073741823 THEN 2147483646 ELSE u * 2
 Ovf(x) == x > MaxUid
 Norm(x) == IF x > MaxUid THEN x % (MaxUid + 1) ELSE x
 
@@ -85,7 +88,7 @@ AssignLoop(EE, s, i, lastUid, ovf) ==
     IF i > Len(s) THEN [E |-> EE, ovf |-> ovf]
     ELSE LET x == s[i] IN
          IF EE[x].uid # 0
-         THEN LET d == EE[x].uid * 2 IN
+         THEN LET d == Dbl(EE[x].uid) IN
               AssignLoop([EE EXCEPT ![x].uid = Norm(d)], s, i + 1, Norm(Norm(d) + 1),
                          ovf \/ Ovf(d) \/ Ovf(Norm(d) + 1))
          ELSE AssignLoop([EE EXCEPT ![x].uid = lastUid], s, i + 1, lastUid, ovf)
@@ -108,8 +111,8 @@ SortKinds(EE, LL, todo, ovf) ==
 
 \* comments: `comment.uid *= 2`
 DoubleComments(EE) ==
-    [E |-> [i \in 1..Len(EE) |-> IF EE[i].cmt THEN [EE[i] EXCEPT !.uid = Norm(EE[i].uid * 2)] ELSE EE[i]],
-     ovf |-> \E i \in 1..Len(EE) : EE[i].cmt /\ Ovf(EE[i].uid * 2)]
+    [E |-> [i \in 1..Len(EE) |-> IF EE[i].cmt THEN [EE[i] EXCEPT !.uid = Norm(Dbl(EE[i].uid))] ELSE EE[i]],
+     ovf |-> \E i \in 1..Len(EE) : EE[i].cmt /\ Ovf(Dbl(EE[i].uid))]
 
 SortNewResult(EE, LL) ==
     LET E0 == IF NeedCompact(EE) THEN Compacted(EE) ELSE EE
